@@ -145,3 +145,35 @@ PROPS.update({
         explanation="Theorem C13 (proofs/C0213Unsat*.v), no extra hypothesis: when some requirement of the target is hopeless (not OR-reachable from the supplied values) the call fails at graph construction with the unsatisfied-argument error whose missing list contains it, contains only pruned requirements of the target that are neither derivable nor exactly supplied, whose input list is the supplied values and whose converter list contains every supplied converter. Correspondence: errors.As, the three lists as sets (converter types in order), and that the message mentions each missing argument.",
         assumptions=[]),
 })
+
+PROPS.update({
+    "C06": dict(layer=RES,
+        streams=[S("call", "run_prop CPanic P06", 500, 16000), S("malformed", "run_prop CFull P06", 300, 8000),
+                 S("redefine", "run_prop CPanic P06", 300, 8000), S("convert", "run_prop CPanic P06", 150, 4000),
+                 S("once", "run_prop CPanic P06", 200, 6000), S("built", "run_prop CPanic P06", 150, 4000),
+                 S("call", "run_prop CPanic P06", 300, 6000, variant="nat"), S("redefine", "run_prop CPanic P06", 200, 4000, variant="nat")],
+        witness=[W("TestD3", "D3"), W("TestD4", "D4"), W("TestD5", "D5"), W("TestD6", "D6"), W("TestD9", "D9"), W("TestD10", "D10"), W("TestD15", "D15")],
+        nontrivial_rule="at least two function executions in the history",
+        explanation="Theorems C06, C06_convert, C06_malformed (proofs/C06Total*.v): on well-formed use, with a transitive implements relation and a well-typed memo table, Call, Redefine and Convert of the model return Ok or a tape mismatch for EVERY order tape: never one of the model's panic sites (= the panic sites of the Go code: unknown source / dangling edge in Dijkstra, reflect.Set of a non-assignable value, nil lookups in outputValues, function vertex without function, \"didn't reach a final value\") and never out of fuel (bounded recursion); a nil or failing option is the build error. C06_untransitive_refuted shows the universe hypothesis is needed. Correspondence: panic/no-panic agreement plus a process-level watchdog (hang, memory) on every stream, instrumented and native map order; malformed stream (nil option, nil values, non-function and nil converters, failing generators).",
+        assumptions=["domain bound: fewer than (2^63-1)/20 graph vertices", "names are Go identifiers (reflect.StructOf rejects others in NewValueSet/Redefine)"]),
+})
+
+PROPS["C03"]["explanation"] = PROPS["C03"]["explanation"].replace("hypotheses", "hypothesis") if False else PROPS["C03"]["explanation"]
+
+PROPS.update({
+    "C05": dict(layer=RES,
+        streams=[S("call", "run_prop CClass P05", 600, 20000), S("exact", "run_prop CClass P05", 200, 6000),
+                 S("c07f1", "run_prop CClass P05", 150, 4000), S("convert", "run_prop CClass P05", 150, 4000),
+                 S("call", "run_prop CPanic P05", 300, 6000, variant="nat")],
+        witness=[W("TestD5", "D5"), W("TestD18", "D18")],
+        nontrivial_rule="at least two function executions in the history",
+        explanation="Theorem C05 (proofs/C05Complete*.v, 21 files): for every well-formed call whose target is derivable and whose converters all have at most one input (arbitrary cycles) or are acyclic and satisfiable, and for EVERY order tape, the call from a fresh world returns a result or the error of a failing converter -- never the unsatisfied-argument error, a panic or out-of-fuel -- and succeeds under every order when nothing fails (stability of the outcome). Hypotheses: transitive implements relation (refuted otherwise: C05_untransitive_refuted) and fewer than (2^63-1)/20 graph vertices. Proved for the repaired code: the proof attempt produced the counterexample D18 on the pinned tree (replayed 200/200 on the Go library, fixed by a53b619, now C05_d18_regression and witness TestD18); a search of 1.4 million premise-satisfying scenarios x 8 tapes on the repaired model found nothing. Correspondence: outcome class under several tapes per scenario and native map order; monitor c05_ok.",
+        assumptions=["derivability is computed without memoized results", "domain bound: fewer than (2^63-1)/20 graph vertices"]),
+    "C08": dict(layer=RES,
+        streams=[S("redefstrict", "run_prop2 CFull 8", 500, 16000), S("redefine", "run_prop2 CFull 8", 250, 6000),
+                 S("redefstrict", "run_prop2 CPanic 8", 200, 4000, variant="nat")],
+        witness=[W("TestD7", "D7"), W("TestD8", "D8")],
+        nontrivial_rule="history with at least one execution",
+        explanation="Theorems C08 / C08_unbounded (proofs/C08Redefine*.v): Redefine fails with the output-filter error exactly when an output is rejected; when it succeeds every input of the redefined function passes the input filter (bound: fewer than (2^63-1)/20 vertices) and none is keyed like a supplied value. NOT proved, decided by correspondence + monitor only: calling the redefined function with a value per input never fails for lack of an argument and yields the original results; success whenever every parameter is permitted. Correspondence: Redefine's declared inputs as a set, then the call of the redefined function (outer resolution of the synthesised struct function and inner original Call) against the model, on the property's domain (stream redefstrict) and beyond (stream redefine: subtypes, interfaces, multi-input converters, generated converters).",
+        assumptions=["the 'callable' and 'succeeds when all permitted' clauses are monitored, not proved"]),
+})
